@@ -1706,4 +1706,62 @@ theorem finish_ghost2 (ext : WExt) {r : Nat} {g : Ghost2} {s : WState} {d : Dev}
     simp only [hin]
     exact WSat.pure ⟨⟨rfl, hl⟩, fun _ => rfl⟩
 
+/-- a writer whose ghost closes is not closed -/
+theorem Lay2.not_closed {ext : WExt} {r : Nat} {g : Ghost2} {s : WState} {d : Dev} (h : Lay2 r g s d)
+    {es : List Spec.Zip.Entry} {gap : Bytes} (hg : g.fin ext = .ok es gap) : s.inner.isClosed = false := by
+  cases g with
+  | dead => cases hg
+  | stuck ss n wf => cases hg
+  | lost => cases hg
+  | idle done gap0 c0 => rw [h.1.inner]; rfl
+  | opened done gap0 c0 o =>
+    by_cases hph : o.phase = .data
+    · obtain ⟨dp, hop, hwf, hc, hm⟩ := h
+      cases hr : o.raw with
+      | true =>
+        rw [hr] at hm; simp only [if_true] at hm
+        rw [hm.2.1]; rfl
+      | false =>
+        rw [hr] at hm; simp only [Bool.false_eq_true, if_false] at hm
+        have := hm.2.2.2.2.2.2
+        rw [hph] at this
+        have hi := this.2.2
+        unfold InnerData at hi
+        cases henc : o.enc with
+        | none => rw [henc] at hi; rcases hi with ⟨_, hi⟩ | ⟨_, hi⟩ <;> rw [hi] <;> rfl
+        | some pw => rw [henc] at hi; rcases hi with ⟨_, hi⟩ | ⟨_, hi⟩ <;> rw [hi] <;> rfl
+    · have := (h.extra_mode hph).2.2.2
+      cases hi : s.inner with
+      | closed => exact absurd hi this
+      | storer enc => rfl
+      | compressor m l enc p => rfl
+
+/-- **`Drop`** on a writer whose ghost closes and whose comment fits: `finalize` succeeds, leaves the
+plain storer behind (dropping the fields then writes nothing), and the live part of the sink is the layout. -/
+theorem drop_ghost2 (ext : WExt) {r : Nat} {g : Ghost2} {s : WState} {d : Dev} (h : Lay2 r g s d)
+    {es : List Spec.Zip.Entry} {gap c : Bytes} (hg : g.close ext = some (es, gap, c))
+    (hclen : ¬ c.length > 65535) :
+    WSat (dropWriter ext s) none d (fun rs d' =>
+      rs.1 = .ok () ∧ LiveAt d' d'.pos (build (layoutOf es gap c [])) r) := by
+  obtain ⟨hfinr, hcg⟩ := Ghost2.close_fin hg
+  have hcm : s.comment = c := by rw [hcg]; exact h.cmt_eq (ext := ext) hfinr
+  have hncl := h.not_closed hfinr
+  unfold dropWriter
+  rw [hncl]
+  simp only [Bool.false_eq_true, if_false]
+  have hfin : WSat (finishFile ext s) none d (FinPost es gap r s.comment) := by
+    apply WSat.mono (finishFile_ghost2 ext h)
+    intro rs d' hq
+    rw [hfinr] at hq
+    rw [hcm, hcg]
+    exact hq.1
+  rw [← hcm] at hclen ⊢
+  apply WSat.bind
+  apply WSat.mono (finalize_lay ext hclen hfin)
+  intro ⟨r1, s1⟩ d1 ⟨hok, hin, hl⟩
+  dsimp only at hin ⊢
+  unfold dropInner
+  simp only [hin]
+  exact WSat.pure ⟨rfl, hl⟩
+
 end ZipVerif.WL
